@@ -248,6 +248,20 @@ def fresh_rule(rep, F, ids):
     rep.floor("coverage comparisons over the running totals", 4, n_cmp)
 
 
+def total_order(F, callee):
+    """the Self type of a `<T as PartialOrd>::op` callee is totally ordered: a primitive integer or a crate type with an Ord impl"""
+    m = re.match(r"<(.+?) as std::cmp::PartialOrd(<.*>)?>::", callee or "")
+    if not m:
+        return False
+    T = m.group(1).lstrip("&").strip()
+    if T in ("u8", "u16", "u32", "u64", "u128", "usize", "i8", "i16", "i32", "i64", "i128", "isize", "bool", "char"):
+        return True
+    for im in F.impls:
+        if (im.get("trait") or "").startswith("std::cmp::Ord") and ((im.get("self_adt") or im.get("self_ty") or "") == T or (im.get("self_adt") or im.get("self_ty") or "").endswith("::" + T)):
+            return True
+    return False
+
+
 def post_gate_rule(rep, F, ids, adds):
     """success of add_inputs_from is decided on what the builder really holds"""
     rep.rule("POST-gate", "the success return of add_inputs_from is dominated by the passing edge of `actual >= required` where actual is a fresh get_total_input() and required a fresh get_total_output() + min_fee(), all evaluated after the last input addition: the running totals of the strategies are bookkeeping (an offered list that repeats an outpoint, an outpoint the builder already holds, assets required by a burn are invisible to them), the final test is on the builder's state - unless the offered list is made unique by input before selection")
@@ -272,6 +286,7 @@ def post_gate_rule(rep, F, ids, adds):
 
     gated = True
     n_ok = 0
+    partial_note = []
     for bi, kind, loc in mp.success_stores(F, fid):
         if kind != "ok":
             continue
@@ -292,7 +307,12 @@ def post_gate_rule(rep, F, ids, adds):
             fee = [x for x in a1 if x.startswith("call:") and x.split("@")[0].endswith("min_fee")]
             if not (tin and tout and fee):
                 continue
-            passing = (name == "ge" and (edge != "0") != d["neg"]) or (name == "lt" and (edge == "0") != d["neg"])
+            # `!(actual < required)` certifies coverage only on a total order: Value is partially ordered (more lovelace, fewer
+            # tokens: neither < nor >=), there only the true edge of >= (or <= swapped) is a proof
+            total = total_order(F, d["callee"])
+            passing = (name == "ge" and (edge != "0") != d["neg"]) or (total and name == "lt" and (edge == "0") != d["neg"])
+            if not total and name == "lt" and (edge == "0") != d["neg"] and tin and tout and fee:
+                partial_note.append(d["callee"])
             fresh = all(not reaches_add(int(x.split("@")[1])) for x in tin + tout + fee)
             if passing and fresh:
                 ok = True
@@ -302,6 +322,9 @@ def post_gate_rule(rep, F, ids, adds):
         rep.lost("add_inputs_from has no success return")
         return
     if gated:
+        return
+    if partial_note:
+        rep.violation("POST-gate", "add_inputs_from|partial-order", "add_inputs_from decides success on the *false* edge of `actual < required` (%s): Value is only partially ordered - with more lovelace than required but fewer units of a requested asset neither `<` nor `>=` holds, so the test stays silent and selection reports success without covering that asset (a burn under random-improve, an offered list repeating a UTxO). Only the true edge of `actual >= required` proves coverage" % partial_note[0], {})
         return
     # no final test on the builder's state: then at least the offered list must be unique by input
     uniq = False
